@@ -128,7 +128,7 @@ pub fn migrate(from: &Path, mut to: Options, overwrite: bool, force_migrate: &[u
 			log::info!("Collection migrated {}, imported", c);
 
 			dest.close()?;
-			drop(source);
+			source.close()?;
 			let mut tmp_dir = from.to_path_buf();
 			tmp_dir.push(OVERWRITE_TMP_PATH);
 			let remove_tmp_dir = || remove_private_dir(&tmp_dir);
@@ -201,7 +201,7 @@ pub fn clear_column(path: &Path, column: ColId) -> Result<()> {
 	let mut options = Options::with_columns(path, meta.columns.len() as u8);
 	options.salt = Some(meta.salt);
 	options.columns = meta.columns;
-	drop(Db::open(&options)?);
+	Db::open(&options)?.close()?;
 
 	crate::column::Column::drop_files(column, path.to_path_buf())?;
 
